@@ -168,14 +168,14 @@ def stepT (cfg : Cfg) (sh : Shared) (t : Tid) (l : Local) : Shared × Local :=
   | .alloc =>
     let I := sh.inners l.bi
     if allocSize l.text ≤ I.block.cap - I.block.used then
-      ({ sh with inners := upd sh.inners l.bi
-            { I with block := { I.block with used := I.block.used + allocSize l.text } } },
+      ({ sh with inners := (upd sh.inners l.bi
+            { I with block := { I.block with used := I.block.used + allocSize l.text } }) },
        { l with off := I.block.used, pc := .write })
     else
       ({ sh with
-            inners := upd sh.inners sh.ninners
+            inners := (upd sh.inners sh.ninners
               { block := { cap := 2 * I.block.cap, used := I.block.used, cells := I.block.cells },
-                tcur := sh.ntables },
+                tcur := sh.ntables }),
             ninners := sh.ninners + 1,
             tables := upd sh.tables sh.ntables (sh.tables l.ti),
             ntables := sh.ntables + 1 },
@@ -185,8 +185,8 @@ def stepT (cfg : Cfg) (sh : Shared) (t : Tid) (l : Local) : Shared × Local :=
      { l with bi := l.nb, ti := (sh.inners l.nb).tcur, pc := .alloc })
   | .write =>
     let I := sh.inners l.bi
-    ({ sh with inners := upd sh.inners l.bi
-          { I with block := { I.block with cells := (l.off, l.text) :: I.block.cells } } },
+    ({ sh with inners := (upd sh.inners l.bi
+          { I with block := { I.block with cells := (l.off, l.text) :: I.block.cells } }) },
      { l with pc := .publish })
   | .publish =>
     let I := sh.inners l.bi
